@@ -605,15 +605,25 @@ def r6_final_teardown(ctx, rep, R='C01.R6'):
     fi = ctx.model.func('runner.Runner.run_tests')
     g = _run_tests_cfg(ctx, fi)
     rl = [c for c in own_calls(fi.node) if call_name(c) == 'run_layer']
-    m = dotted(arg(rl[0], 4, 'setup_layers')) if rl else None
+    # parameter names as the callee declares them today (a rename of the map is no change)
+    def pname(q, i, default):
+        try:
+            ps_ = params(ctx.model.func(q))
+            return ps_[i] if i < len(ps_) else default
+        except Exception:
+            return default
+    p_map_rl = pname('runner.run_layer', 4, 'setup_layers')
+    p_needed = pname('runner.tear_down_unneeded', 1, 'needed')
+    p_map_td = pname('runner.tear_down_unneeded', 2, 'setup_layers')
+    m = dotted(arg(rl[0], 4, p_map_rl)) if rl else None
     finals = []
     fcalls = []
     for n in g.nodes:
         for c in node_calls(g, n.id):
             if call_name(c) == 'tear_down_unneeded':
-                needed = arg(c, 1, 'needed')
+                needed = arg(c, 1, p_needed)
                 if needed is not None and is_empty_collection(needed) and \
-                        dotted(arg(c, 2, 'setup_layers')) == m:
+                        dotted(arg(c, 2, p_map_td)) == m:
                     finals.append(n.id)
                     fcalls.append(c)
     rep.check(bool(finals) and m is not None, R,
